@@ -231,6 +231,13 @@ def getMessage (r : R) : Option Text :=
   | some e, some m => if m.isEmpty then some m else some (e ++ ' ' :: m)
   | _, m => m
 
+/-- `code.setter` (a valid code): nothing else changes; the enhanced status code's class follows the
+    code the next time it is read. -/
+def setCode (r : R) (code : Text) : R := { r with code := some code }
+
+/-- `enhanced_status_code = False` -/
+def escOff (r : R) : R := { r with esc := .off }
+
 /-- `Reply(code, message)` -/
 def mk (k : Classes) (code : Text) (message : Text) : R :=
   setMessage k { code := some code, msg := none, esc := .none } (some message)
